@@ -28,7 +28,7 @@ NOT_PROVED = [
 ]
 ASSUMPTIONS = ["auto-scaled export: the smallest pixel is stored as 0 and the largest as 2^depth-1 (proved for 8 bit: C16_extremes_exact)"]
 
-WORK = os.path.join(os.path.dirname(os.path.dirname(os.path.dirname(os.path.abspath(__file__)))), "build", "c16")
+WORK = os.path.join(os.path.dirname(os.path.dirname(os.path.dirname(os.path.abspath(__file__)))), "build", "c16_%d" % os.getpid())
 
 
 def attr_tokens(attrs):
